@@ -6,7 +6,7 @@ use crate::gen;
 use crate::runner::{Property, Report, Tier};
 use crate::sched;
 use crate::sim::{self, Ev, Log, Outcome, Req, Sim, TaskState};
-use crate::svc::{Lat, Out, Resp, SErr, Scripted, Step};
+use crate::svc::{Resp, SErr, Scripted, Step};
 use proptest::prelude::*;
 use serde::{Deserialize, Serialize};
 use serde_json::json;
